@@ -800,6 +800,9 @@ struct Verdict {
     /// for an attached probe block that was truncated away again: what the store answers about
     /// the data of the first output of the candidate (read once while it was live)
     gone_cell_answers: Option<String>,
+    /// for an attached probe block whose hash had been queried before the block arrived: what
+    /// the store answers about it while it is the tip (true = the stored block is byte-identical)
+    attached_answers: Option<(String, bool)>,
 }
 
 /// Verdict of a candidate on both paths. Leaves the node at the context tip with an empty pool.
@@ -831,6 +834,13 @@ fn verdicts(s: &Setup, node: &Node, c: &Cand, clear_cache: bool) -> Verdict {
     let mut txs = c.pre.clone();
     txs.push(c.tx.clone());
     let (blk, resolved) = block_with(s, &txs);
+    {
+        // queries about a block the node has not seen yet (a peer or an RPC client may ask)
+        use ckb_store::ChainStore;
+        let st = node.shared.store();
+        let bh = blk.hash();
+        let _ = (st.get_block_header(&bh), st.block_exists(&bh), st.get_block_uncles(&bh), st.get_block_proposal_txs_ids(&bh), st.get_block_extension(&bh), st.get_block_txs_hashes(&bh), st.get_block(&bh), st.get_block_number(&bh));
+    }
     let res = node.chain().blocking_process_block(Arc::new(blk.clone()));
     let mut passed_tx_rules = false;
     if let Err(e) = &res {
@@ -866,6 +876,28 @@ fn verdicts(s: &Setup, node: &Node, c: &Cand, clear_cache: bool) -> Verdict {
     } else {
         None
     };
+    let attached_answers = if accepted {
+        use ckb_store::ChainStore;
+        let st = node.shared.store();
+        let bh = blk.hash();
+        let same = st.get_block(&bh).map(|b| b.data().as_slice() == blk.data().as_slice()).unwrap_or(false);
+        Some((
+            format!(
+                "header={} exists={} uncles={} proposals={} extension={:?} tx_hashes={} body={} block_bytes_equal={}",
+                st.get_block_header(&bh).is_some(),
+                st.block_exists(&bh),
+                st.get_block_uncles(&bh).map(|u| u.data().len()).unwrap_or(usize::MAX),
+                st.get_block_proposal_txs_ids(&bh).map(|p| p.len()).unwrap_or(usize::MAX),
+                st.get_block_extension(&bh).map(|e| e.raw_data().len()),
+                st.get_block_txs_hashes(&bh).len(),
+                st.get_block_body(&bh).len(),
+                same
+            ),
+            same && st.get_block_txs_hashes(&bh).len() == blk.transactions().len() && st.get_block_extension(&bh).map(|e| e.raw_data()) == blk.extension().map(|e| e.raw_data()),
+        ))
+    } else {
+        None
+    };
     let probe_out = OutPoint::new(c.tx.hash(), 0);
     let mut read_while_live = false;
     if accepted && !c.tx.outputs().is_empty() {
@@ -888,7 +920,7 @@ fn verdicts(s: &Setup, node: &Node, c: &Cand, clear_cache: bool) -> Verdict {
     } else {
         None
     };
-    Verdict { pool, accepted, ext, passed_tx_rules, refused_answers, gone_cell_answers }
+    Verdict { pool, accepted, ext, passed_tx_rules, refused_answers, gone_cell_answers, attached_answers }
 }
 
 /// Thorough tier: nodes with a tx-pool service cannot be torn down inside a process (their
@@ -1044,6 +1076,7 @@ pub fn run(args: &Args) -> i32 {
             let (pool, accepted, ext1) = (v1.pool, v1.accepted, v1.ext.clone());
             let refused1 = v1.refused_answers.clone();
             let gone1 = v1.gone_cell_answers.clone();
+            let attached1 = v1.attached_answers.clone();
             vec1.insert(c.name, (pool, accepted));
             ext1s.insert(c.name, ext1.clone());
             if v1.passed_tx_rules && !c.valid {
@@ -1131,6 +1164,19 @@ pub fn run(args: &Args) -> i32 {
                     c14.count("deleted_block_answers_compared");
                     if a != b {
                         c14.violation("answer_differs_with_cold_caches.deleted_invalid_block", format!("store answers about the hash of a block refused and deleted as invalid (`{}`): warm caches {a}; cache size {cache_cfg}: {b}", c.name), wit.clone());
+                    }
+                }
+                // a probe block whose hash was asked about before it arrived
+                if let Some((a, ok)) = &attached1 {
+                    c14.eval();
+                    c14.count("attached_block_answers_checked");
+                    if !ok {
+                        c14.violation("answer_wrong_after_early_query.attached_block", format!("the store was asked about the hash of the probe block of `{}` before the block arrived; while the block is the tip it answers {a} (block has {} transactions, extension of {:?} bytes)", c.name, 1 + c.pre.len() + 1, "32+"), wit.clone());
+                    }
+                    if let Some((b, _)) = &v3.attached_answers {
+                        if a != b {
+                            c14.violation("answer_differs_with_cold_caches.attached_block_queried_early", format!("store answers about the attached probe block of `{}` (its hash was queried once before it arrived): warm caches {a}; cache size {cache_cfg}: {b}", c.name), wit.clone());
+                        }
                     }
                 }
                 // a probe block that was attached and truncated away again: its cells are gone
